@@ -8,6 +8,7 @@ From Coq Require Import List Arith NArith Bool Lia.
 Import ListNotations.
 Require Import MText MRound MRound2 MkModel MkEval MkEvalP MkGroupsP MkFmtP MkShapeP MkRoundP MkTreeP MkLexP MkLayoutP MkTextP.
 Require Names.
+Require MkEqP MkVariantP MkNewlineP MkReqP ReqModel ReqSpec.
 Open Scope N_scope.
 
 (* 1. str(Marker(s)) is itself a valid marker: it parses, to the same structure with single-element groups dissolved;
@@ -109,6 +110,111 @@ Theorem C09_variants_equal m1 m2 t1 t2 : RList m1 t1 -> RList m2 t2 -> lit_class
   exists a b, Marker t1 = MOk a /\ Marker t2 = MOk b /\ marker_eq a b = true.
 Proof. exact (layout_variants_eq m1 m2 t1 t2). Qed.
 Print Assumptions C09_variants_equal.
+
+(* 10. canonicity converse: == conflates NOTHING but structures with the same peeled form (so, with C09_variant_same_peeled, equality
+       of accepted markers IS equality of the peeled structures), and it is an equivalence *)
+Theorem C09_eq_only_if_same_peeled d a b : pfm d a -> pfm d b -> marker_eq a b = true -> peel_top a = peel_top b.
+Proof. exact (MkEqP.eq_only_if_same_peeled d a b). Qed.
+Print Assumptions C09_eq_only_if_same_peeled.
+Theorem C09_eq_iff_same_peeled s1 s2 a b : Marker s1 = MOk a -> Marker s2 = MOk b -> (marker_eq a b = true <-> peel_top a = peel_top b).
+Proof. exact (MkEqP.Marker_eq_iff_same_peeled s1 s2 a b). Qed.
+Print Assumptions C09_eq_iff_same_peeled.
+Theorem C09_eq_equivalence : (forall a, marker_eq a a = true) /\ (forall a b, marker_eq a b = marker_eq b a) /\
+  (forall a b c, marker_eq a b = true -> marker_eq b c = true -> marker_eq a c = true).
+Proof. split; [exact MkEqP.marker_eq_refl | split; [exact MkEqP.marker_eq_sym | exact MkEqP.marker_eq_trans]]. Qed.
+Print Assumptions C09_eq_equivalence.
+(* equal markers evaluate identically in every environment and have the same operands in the same order *)
+Theorem C09_equal_markers_evaluate_alike s1 s2 a b defaults ov : Marker s1 = MOk a -> Marker s2 = MOk b -> marker_eq a b = true ->
+  evaluate a defaults ov = evaluate b defaults ov /\ sides_l a = sides_l b.
+Proof.
+  intros Ha Hb E. split; [exact (MkEqP.equal_markers_evaluate_alike s1 s2 a b defaults ov Ha Hb E) | exact (MkEqP.equal_markers_same_operands s1 s2 a b Ha Hb E)].
+Qed.
+Print Assumptions C09_equal_markers_evaluate_alike.
+
+(* 11. PEP 345 variable spellings, by name (C09_variant_variable_spelling only said "some canonical name"): every spelling of the
+       alternation is read as its own text with "." replaced by "_", except python_implementation, which is read as
+       platform_python_implementation; canonical names are read as themselves; every canonical name has a spelling *)
+Theorem C09_var_spellings :
+  forallb (fun w => str_eqb (norm_var w) (if str_eqb (MkEqP.dot2us w) w_pyimpl then w_ppyimpl else MkEqP.dot2us w)) var_alts = true
+  /\ forallb (fun w => str_eqb (norm_var w) w) canon_vars = true
+  /\ forallb (fun n => existsb (fun w => str_eqb (norm_var w) n) var_alts) canon_vars = true.
+Proof. exact MkEqP.var_spellings. Qed.
+Print Assumptions C09_var_spellings.
+(* ... hence two spellings denote the same variable exactly when they agree after that replacement: os.name / os_name are
+   identified, os_name / sys_platform are not *)
+Theorem C09_var_spellings_exact w1 w2 : In w1 var_alts -> In w2 var_alts ->
+  (norm_var w1 = norm_var w2 <->
+   MkEqP.dot2us w1 = MkEqP.dot2us w2 \/ (MkEqP.dot2us w1 = w_pyimpl /\ MkEqP.dot2us w2 = w_ppyimpl) \/
+   (MkEqP.dot2us w1 = w_ppyimpl /\ MkEqP.dot2us w2 = w_pyimpl)).
+Proof. exact (MkEqP.var_spellings_exact w1 w2). Qed.
+Print Assumptions C09_var_spellings_exact.
+
+(* 12. redundant parentheses and extra-name spellings AT ANY DEPTH.  MkVariantP.Variant m1 m2: related by any number of steps, each
+       wrapping/unwrapping a single element in a group or replacing the literal compared with extra (either side) by one with the
+       same PEP 503 normal form - in any context (VE_ctx: inside any group at any position, hence at any depth).
+       Variants normalise and peel to the same structure ... *)
+Theorem C09_variant_any_depth m1 m2 : MkVariantP.Variant m1 m2 -> peel_top (norm_l m1) = peel_top (norm_l m2).
+Proof. exact (MkVariantP.variant_same_peeled m1 m2). Qed.
+Print Assumptions C09_variant_any_depth.
+(* ... so whatever two texts look like, if what the parser reads from them are variants, the Markers are equal, print alike (hash
+   alike) and evaluate alike *)
+Theorem C09_variant_markers_equal t1 t2 m1 m2 : parse_marker_nl t1 = Some m1 -> parse_marker_nl t2 = Some m2 ->
+  lit_class m1 = LOk -> lit_class m2 = LOk -> MkVariantP.Variant m1 m2 ->
+  exists a b, Marker t1 = MOk a /\ Marker t2 = MOk b /\ marker_eq a b = true /\ format_marker a = format_marker b.
+Proof. exact (MkVariantP.variant_markers_equal t1 t2 m1 m2). Qed.
+Print Assumptions C09_variant_markers_equal.
+Theorem C09_variant_evaluate_alike t1 t2 m1 m2 defaults ov : parse_marker_nl t1 = Some m1 -> parse_marker_nl t2 = Some m2 ->
+  lit_class m1 = LOk -> lit_class m2 = LOk -> MkVariantP.Variant m1 m2 ->
+  exists a b, Marker t1 = MOk a /\ Marker t2 = MOk b /\ evaluate a defaults ov = evaluate b defaults ov.
+Proof. exact (MkVariantP.variant_evaluate_alike t1 t2 m1 m2 defaults ov). Qed.
+Print Assumptions C09_variant_evaluate_alike.
+(* the constructors the statement names, as derived rules: outer parentheses; a variant step inside a group inside a group *)
+Theorem C09_variant_rules :
+  (forall m, MkVariantP.Variant m [Nested m]) /\
+  (forall e, is_bool e = false -> MkVariantP.VarE e (Nested [e])) /\
+  (forall n o v1 v2, str_eqb n w_extra = true -> Names.canon_name v1 = Names.canon_name v2 ->
+     MkVariantP.VarE (Item (SVar n) o (SVal v1)) (Item (SVar n) o (SVal v2)) /\
+     MkVariantP.VarE (Item (SVal v1) o (SVar n)) (Item (SVal v2) o (SVar n))) /\
+  (forall pre post pre' post' e e', MkVariantP.VarE e e' ->
+     MkVariantP.Variant (pre ++ Nested (pre' ++ e :: post') :: post) (pre ++ Nested (pre' ++ e' :: post') :: post)).
+Proof.
+  split; [exact MkVariantP.Variant_outer_parens|]. split; [exact MkVariantP.VE_wrap|]. split.
+  - intros n o v1 v2 E H. split; [now apply MkVariantP.VE_extra_r | now apply MkVariantP.VE_extra_l].
+  - exact MkVariantP.Variant_at2.
+Qed.
+Print Assumptions C09_variant_rules.
+
+(* 13. a trailing newline (END is "$"): for every text the strict parser accepts, Marker(text + "\n") is Marker(text) *)
+Theorem C09_trailing_newline mt m : MText.parse_marker mt = Some m -> Marker (mt ++ [10]) = Marker mt.
+Proof. exact (MkNewlineP.Marker_trailing_newline mt m). Qed.
+Print Assumptions C09_trailing_newline.
+
+(* 14. the marker attached to a parsed Requirement equals the stand-alone Marker of the same text (composition of the C08 theorem
+       C08_marker_is_Marker = ReqTopP.Requirement_marker_is_Marker with the laws above).  sp ranges over every spelled requirement:
+       name, optional extras, a version clause list (parenthesised or not) or "@ url", blanks wherever the grammar allows them, and
+       the marker text mt after ";".  The two objects are the same structure: ==, same str, same hash, same evaluation; the str of
+       the requirement's marker reparses to an equal Marker; and the stand-alone text may carry a trailing newline *)
+Theorem C09_requirement_marker_same sp mt m : ReqSpec.rq_wf sp (Some m) -> ReqSpec.rs_marker sp = Some mt -> lit_class m = LOk ->
+  exists r a b,
+    ReqModel.Requirement (ReqSpec.rq_render sp) = ReqModel.RqOk r /\ ReqModel.q_marker r = Some a /\ Marker mt = MOk b /\
+    a = b /\ marker_eq a b = true /\ format_marker a = format_marker b /\
+    (forall (h : str -> N), h (format_marker a) = h (format_marker b)) /\
+    (forall defaults ov, evaluate a defaults ov = evaluate b defaults ov) /\
+    Marker (format_marker a) = MOk (peel_top b) /\ marker_eq (peel_top b) b = true /\
+    Marker (mt ++ [10]) = MOk b.
+Proof. exact (MkReqP.requirement_marker_same sp mt m). Qed.
+Print Assumptions C09_requirement_marker_same.
+
+(* non-vacuity of 10-13: closed boolean checks and one explicit Variant derivation (a respelling two groups down, a wrap at depth
+   one, outer parentheses) between the structures two concrete texts parse to *)
+Example C09_new_nonvacuous :
+  MkEqP.eq_check = true /\ MkVariantP.variant_check = true /\ MkNewlineP.newline_check = true /\
+  MkVariantP.Variant MkVariantP.vx_m1 MkVariantP.vx_m2 /\
+  parse_marker_nl MkVariantP.vx_t1 = Some MkVariantP.vx_m1 /\ parse_marker_nl MkVariantP.vx_t2 = Some MkVariantP.vx_m2.
+Proof.
+  split; [exact MkEqP.eq_nonvacuous|]. split; [exact MkVariantP.variant_nonvacuous|]. split; [exact MkNewlineP.newline_nonvacuous|].
+  split; [exact MkVariantP.variant_example | exact MkVariantP.variant_example_parses].
+Qed.
 
 (* non-vacuity: a doubly parenthesised or-group holding a literal with a double quote and an extra comparison with an
    un-normalised name on the left, and-ed with a parenthesised single comparison: the text printed differs from the input
